@@ -154,7 +154,7 @@ def ref_align_candidates(ishape, oshape, align):
 
 # ------------------------------------------------------------------ running the models in a real pipeline
 
-def run_model(kind, path, dshape, position=(0, 0), align=None):
+def run_model(kind, path, dshape, position=(0, 0), align=None, working_directory=None):
     """Run load_image / load_charge in an exposure pipeline; returns the bucket seen by the probe placed after it."""
     import pyxel
 
@@ -166,7 +166,8 @@ def run_model(kind, path, dshape, position=(0, 0), align=None):
     else:
         groups = {"charge_generation": [(F_CHG, "load_charge", dict(args, filename=str(path)))]}
     groups["charge_collection"] = [("vp.probes.rec_buckets", "after", {})]
-    pyxel.run_mode(mk.exposure([1.0]), det, mk.pipeline(groups))
+    kw = {"working_directory": working_directory} if working_directory else {}
+    pyxel.run_mode(mk.exposure([1.0], **kw), det, mk.pipeline(groups))
     tr = [t for t in probes.TRACE if t["name"] == "after"]
     if len(tr) != 1:
         raise RuntimeError(f"probe after the loading model ran {len(tr)} times")
@@ -437,6 +438,7 @@ cfgx.install(_cfg)
 # ================================================================== part hist (seqx)
 
 H_DSHAPE = (2, 3)
+_HOME = os.getcwd()
 MTIME_BASE = 1_700_000_000          # seconds; every write of a history gets MTIME_BASE + k
 VERSIONS = {"A": (2, 3), "B": (2, 3), "C": (3, 2), "Z": (2, 3)}
 
@@ -469,8 +471,10 @@ class HistModel:
 
     counter = 0
 
-    def __init__(self, ext, tier, prefix=()):
-        self.ext, self.tier, self.prefix = ext, tier, [list(p) for p in prefix]
+    def __init__(self, ext, tier, prefix=(), style="abs"):
+        # style: how the models / loaders are given the path - "abs" (absolute), "cwd" (relative to the process's
+        # current directory), "wd" (relative to pyxel's `working_directory` option)
+        self.ext, self.tier, self.prefix, self.style = ext, tier, [list(p) for p in prefix], style
         ops = [["cropped"], ["model", "image"], ["model", "charge"]]
         if tier == "thorough":
             ops.append(["obs"])
@@ -507,6 +511,13 @@ class HistModel:
             path = os.path.join(d, "input" + self.ext)
             other = os.path.join(d, "second" + self.ext)
             nwrites = 0
+            name, name2 = path, other                   # what the library is given
+            if self.style != "abs":
+                name, name2 = os.path.basename(path), os.path.basename(other)
+                if self.style == "cwd":
+                    os.chdir(d)
+                else:
+                    pyxel.set_options(working_directory=d)
 
             def stamp():
                 # explicit, strictly increasing modification time (1 s per write): the verdict must not depend on
@@ -520,6 +531,8 @@ class HistModel:
             stamp()
             for op in hist:
                 try:
+                    if self.style == "wd":          # running modes (re)set the option from their own argument
+                        pyxel.set_options(working_directory=d)
                     if op[0] == "w":
                         _write(path, version_array(op[1], seed), self.ext)
                         stamp()
@@ -531,32 +544,37 @@ class HistModel:
                         stamp()
                         outs.append(None)
                     elif op[0] == "load":
-                        outs.append(np.asarray(pyxel.load_image(path), dtype="float64"))
+                        outs.append(np.asarray(pyxel.load_image(name), dtype="float64"))
                     elif op[0] == "cropped":
-                        outs.append(np.asarray(load_cropped_and_aligned_image(shape=H_DSHAPE, filename=path),
+                        outs.append(np.asarray(load_cropped_and_aligned_image(shape=H_DSHAPE, filename=name),
                                                dtype="float64"))
                     elif op[0] == "model":
-                        outs.append(run_model(op[1], path, H_DSHAPE))
+                        outs.append(run_model(op[1], name, H_DSHAPE, working_directory=d if self.style == "wd" else None))
                     elif op[0] == "obs":
-                        outs.append(self._obs(path, other, seed))
+                        _write(other, version_array("Z", seed), self.ext)
+                        outs.append(self._obs(name, name2, seed, d if self.style == "wd" else None))
                 except Exception as e:  # noqa: BLE001
                     outs.append(("exc", f"{type(e).__name__}: {str(e)[:160]}"))
         finally:
+            if self.style == "cwd":
+                os.chdir(_HOME)
+            elif self.style == "wd":
+                pyxel.set_options(working_directory=None)
             shutil.rmtree(root, ignore_errors=True)
         return outs
 
-    def _obs(self, path, other, seed):
+    def _obs(self, path, other, seed, working_directory=None):
         import pyxel
         from pyxel.observation import Observation, ParameterValues
 
-        _write(other, version_array("Z", seed), self.ext)
         probes.reset()
         det = mk.detector("ccd", *H_DSHAPE)
         pipe = mk.pipeline({"photon_collection": [(F_IMG, "load_image", {"image_file": path})],
                             "charge_collection": [("vp.probes.rec_buckets", "after", {})]})
         obs = Observation(parameters=[ParameterValues(key="pipeline.photon_collection.load_image.arguments.image_file",
                                                       values=[path, other])],
-                          mode="sequential", readout=mk.readout([1.0]))
+                          mode="sequential", readout=mk.readout([1.0]),
+                          **({"working_directory": working_directory} if working_directory else {}))
         pyxel.run_mode(obs, det, pipe)
         tr = [t for t in probes.TRACE if t["name"] == "after"]
         if len(tr) != 2:
@@ -583,8 +601,10 @@ class HistModel:
             rel = "-"
             if code == "stale":
                 rel = "other-shape" if VERSIONS[stale_v] != VERSIONS[version] else "same-shape"
-            viols.append(({"part": "hist", "op": kind, "code": code, "previous": rel, "ext": self.ext},
-                          f"history {hist} on one path ({self.ext}): {what}"))
+            key = {"part": "hist", "op": kind, "code": code, "previous": rel, "ext": self.ext}
+            if self.style != "abs":
+                key["path"] = self.style
+            viols.append((key, f"history {hist} on one path ({self.ext}, given {self.style}): {what}"))
 
         def judge(got, exp, label):
             nonlocal stale_v
@@ -625,22 +645,29 @@ def _hist_shards(tier, seed):
         for op in m._ops:
             d = 4 if tier == "quick" else (5 if ext == ".npy" else 4)
             out.append({"part": "hist", "ext": ext, "tier": tier, "seed": seed, "prefix": [op], "depth": d - 1})
+    # the same histories with the path given relative to the current directory / to pyxel's working_directory
+    for style in ("wd", "cwd"):
+        m = HistModel(".npy", tier, style=style)
+        for op in m._ops:
+            out.append({"part": "hist", "ext": ".npy", "tier": tier, "seed": seed, "prefix": [op], "style": style,
+                        "depth": 2 if tier == "quick" else 3})
     return out
 
 
 def _run_hist(shard):
     os.environ["VERIF_SEED"] = str(shard["seed"])
-    m = HistModel(shard["ext"], shard["tier"], prefix=shard["prefix"])
+    m = HistModel(shard["ext"], shard["tier"], prefix=shard["prefix"], style=shard.get("style", "abs"))
     stats, viols = seqx.bfs(m, shard["depth"])
     out = []
     for v in viols:
         out.append({"key": v["key"], "what": v["what"],
                     "case": {"part": "hist", "ext": shard["ext"], "tier": shard["tier"], "_seed": shard["seed"],
-                             "ops": shard["prefix"] + v["ops"]}})
+                             "style": shard.get("style", "abs"), "ops": shard["prefix"] + v["ops"]}})
     return {"violations": out,
             "counts": {"hist_states": stats["states"], "hist_transitions": stats["transitions"],
                        "evaluations": stats["transitions"], "cap_hit": int(stats["cap_hit"])},
-            "sets": {"hist_explored": [f"{shard['ext']}:{json.dumps(shard['prefix'])}+depth{stats['depth_completed']}"]},
+            "sets": {"hist_explored": [f"{shard['ext']}/{shard.get('style', 'abs')}:{json.dumps(shard['prefix'])}"
+                                       f"+depth{stats['depth_completed']}"]},
             "samples": [{"part": "hist", "ext": shard["ext"], "ops": shard["prefix"] + (stats["sample"] or [])}]}
 
 
@@ -660,7 +687,7 @@ def run_shard(shard):
 def replay(case):
     if case.get("part") == "hist":
         os.environ["VERIF_SEED"] = str(case.get("_seed", "0"))
-        m = HistModel(case["ext"], case.get("tier", "quick"))
+        m = HistModel(case["ext"], case.get("tier", "quick"), style=case.get("style", "abs"))
         return [{"key": v["key"], "what": v["what"], "case": dict(case, ops=v["ops"])}
                 for v in seqx.run_sequence(m, case["ops"])]
     return _cfg.replay(case)
